@@ -20,21 +20,21 @@ def run(ctx, repo):
         'zero-width (R-EVENT-MARKS); every empty-node decision of the parser tests exactly the FOLLOW set of the documented LL(1) '
         'grammar (R-PARSER-LOOKAHEAD); the simple-key window is 1024 characters (R-SIMPLE-KEY-LIMIT).')
     ctx.trust('CPython ast; sa.cfg reaching definitions and dominance; sa.charworld per-character evaluator')
-    RD.r_indent_pairing(ctx, repo)
-    RM.r_mark_order(ctx, repo)
-    RM.r_breakset_positions(ctx, repo)
-    RR.r_positions(ctx, repo)
-    RM.r_key_before_value(ctx, repo)
-    RM.r_parser_stack_discipline(ctx, repo)
-    RM.r_event_marks(ctx, repo)
-    RSB.r_parser_lookahead(ctx, repo)
-    RSB.r_simple_key_limit(ctx, repo)
-    RX.r_mark_from_position(ctx, repo)
-    RX.r_docmarker_column0(ctx, repo)
-    RG.r_parser_grammar(ctx, repo, max_len=8 if ctx.tier == 'thorough' else 6)
+    ctx.call(RD.r_indent_pairing, repo)
+    ctx.call(RM.r_mark_order, repo)
+    ctx.call(RM.r_breakset_positions, repo)
+    ctx.call(RR.r_positions, repo)
+    ctx.call(RM.r_key_before_value, repo)
+    ctx.call(RM.r_parser_stack_discipline, repo)
+    ctx.call(RM.r_event_marks, repo)
+    ctx.call(RSB.r_parser_lookahead, repo)
+    ctx.call(RSB.r_simple_key_limit, repo)
+    ctx.call(RX.r_mark_from_position, repo)
+    ctx.call(RX.r_docmarker_column0, repo)
+    ctx.call(RG.r_parser_grammar, repo, max_len=8 if ctx.tier == 'thorough' else 6)
 
-    RX.r_token_ready(ctx, repo)
-    RX.r_column_per_char(ctx, repo)
+    ctx.call(RX.r_token_ready, repo)
+    ctx.call(RX.r_column_per_char, repo)
 
 if __name__ == '__main__':
     sys.exit(report.main('C09', 'other', run))
